@@ -1,4 +1,5 @@
 import RxProofs.Lemmas.SubjThm
+import RxProofs.Lemmas.SubjNat
 /-!
 # C21 — a BehaviorSubject hands its current value to every new subscriber
 
@@ -72,6 +73,17 @@ theorem behavior_after_dispose {cfg : Cfg} {st : St α} (hd : st.disposed = true
     (∀ n, emit cfg st n = ({ st with raisedNow := some disposedExn }, [])) ∧
     (∀ st' ag' ag, Reach cfg st ag st' ag' → st'.disposed = true) :=
   ⟨(after_dispose (v := none) (rest := []) hd).1, (after_dispose (v := none) (rest := []) hd).2.1⟩
+
+/-- **behavior_natural** (C08 for this subject: no value is special).  Renaming every value of a history (and the
+initial value) with an arbitrary function `g` renames the notifications every observer sees and changes nothing
+else: same exceptions per call, same exceptions caught by reacting callbacks, same observers.  BehaviorSubject (the initial value is renamed too: `None`, `0`, `False`, `''` included). -/
+theorem behavior_natural {β : Type} (cfg : Cfg) (g : α → β) (fuel : Nat) (v : Option α) (calls : List (Call α)) (i : Id) :
+    (run cfg fuel (init cfg (v.map g)) (calls.map (Call.map g))).1.log i =
+      ((run cfg fuel (init cfg v) calls).1.log i).map (Notif.map g) ∧
+    (run cfg fuel (init cfg (v.map g)) (calls.map (Call.map g))).2 = (run cfg fuel (init cfg v) calls).2 ∧
+    (run cfg fuel (init cfg (v.map g)) (calls.map (Call.map g))).1.xlog = (run cfg fuel (init cfg v) calls).1.xlog ∧
+    (run cfg fuel (init cfg (v.map g)) (calls.map (Call.map g))).1.observers = (run cfg fuel (init cfg v) calls).1.observers :=
+  run_natural_log cfg g fuel v calls i
 
 theorem run_reachable (cfg : Cfg) (v : Option α) (fuel : Nat) (calls : List (Call α)) :
     Reachable cfg v (run cfg fuel (init cfg v) calls).1 [] :=
